@@ -400,9 +400,14 @@ class ModuleNormalizer:
             return
         known = [(q, n, c) for q, (n, c) in self.funcs.items() if not self.is_new(q)]
         for q, node, cls in known:
+            inlined = False
             for _ in range(4):
                 if not self._inline_calls(q, node, cls):
                     break
+                inlined = True
+            if inlined:
+                # a helper called with a literal flag leaves `x if True else y` / `if False:` behind
+                self._fold_constant_tests(q, node)
             self._drop_unused_nested(q, node)
             self._drop_self_assignments(node)
             self._split_tuple_assigns(q, node)
@@ -411,6 +416,42 @@ class ModuleNormalizer:
             # a second round: inlining temporaries can expose an appending loop, and the other way round
             self._loops_to_comprehensions(q, node)
             self._inline_aliases(q, node)
+
+    def _fold_constant_tests(self, q: str, node):
+        log = self.log
+
+        class Fold(ast.NodeTransformer):
+            def visit_FunctionDef(self, n):
+                if n is node:
+                    self.generic_visit(n)
+                return n
+
+            visit_AsyncFunctionDef = visit_FunctionDef
+
+            def visit_Lambda(self, n):
+                return n
+
+            def visit_IfExp(self, n):
+                self.generic_visit(n)
+                if isinstance(n.test, ast.Constant) and isinstance(n.test.value, bool):
+                    log.append(f"{q}: conditional expression on the literal {n.test.value} folded")
+                    return n.body if n.test.value else n.orelse
+                return n
+
+            def visit_If(self, n):
+                self.generic_visit(n)
+                if isinstance(n.test, ast.Constant) and isinstance(n.test.value, bool):
+                    log.append(f"{q}: `if {n.test.value}:` folded")
+                    keep = n.body if n.test.value else n.orelse
+                    return keep if keep else ast.copy_location(ast.Pass(), n)
+                return n
+
+        Fold().visit(node)
+        for parent in ast.walk(node):
+            for field in ("body", "orelse", "finalbody"):
+                stmts = getattr(parent, field, None)
+                if isinstance(stmts, list) and len(stmts) > 1 and any(isinstance(x, ast.Pass) for x in stmts):
+                    stmts[:] = [x for x in stmts if not isinstance(x, ast.Pass)] or [stmts[0]]
 
     # ---- resolving a call to a new helper
     def _resolve(self, call: ast.Call, q: str, cls: Optional[ast.ClassDef]):
@@ -451,6 +492,49 @@ class ModuleNormalizer:
         changed = False
         self._cur = node
         caller_names = _names_stored(node) | {a.arg for a in node.args.args}
+        # 0. a statement helper called inside a larger expression: `return a + self.H()` -> `_h = self.H()` /
+        #    `return a + _h` when nothing else in the statement is a call (evaluation order is then unobservable)
+        for parent in ast.walk(node):
+            for field in ("body", "orelse", "finalbody"):
+                stmts = getattr(parent, field, None)
+                if not isinstance(stmts, list) or not stmts or not isinstance(stmts[0], ast.stmt):
+                    continue
+                i = 0
+                while i < len(stmts):
+                    s = stmts[i]
+                    i += 1
+                    if not isinstance(s, (ast.Return, ast.Assign, ast.AugAssign, ast.Expr)) or getattr(s, "value", None) is None or isinstance(s.value, ast.Call):
+                        continue
+                    if any(isinstance(n, (ast.Lambda, ast.ListComp, ast.SetComp, ast.DictComp, ast.GeneratorExp, ast.IfExp, ast.BoolOp, ast.NamedExpr, ast.Await, ast.Yield, ast.YieldFrom)) for n in ast.walk(s.value)):
+                        continue
+                    calls = [n for n in ast.walk(s.value) if isinstance(n, ast.Call)]
+                    hc = [c for c in calls if self._resolve(c, q, cls) is not None]
+                    if len(hc) != 1:
+                        continue
+                    inside = {id(n) for n in ast.walk(hc[0])}
+                    if any(id(c) not in inside for c in calls):
+                        continue
+                    h = self._resolve(hc[0], q, cls)[0]
+                    if _expr_of_body(h.body) is not None or _is_generator(h) or h is node or any(isinstance(n, ast.While) for n in ast.walk(h)):
+                        continue
+                    k = 1
+                    while f"_h{k}" in caller_names:
+                        k += 1
+                    tmp = f"_h{k}"
+                    caller_names.add(tmp)
+                    pre = _relocate(ast.Assign(targets=[ast.Name(id=tmp, ctx=ast.Store())], value=hc[0]), s)
+
+                    class Put(ast.NodeTransformer):
+                        def visit_Call(self, c):
+                            if c is hc[0]:
+                                return ast.copy_location(ast.Name(id=tmp, ctx=ast.Load()), c)
+                            return self.generic_visit(c)
+
+                    s.value = Put().visit(s.value)
+                    stmts.insert(i - 1, pre)
+                    i += 1
+                    self.log.append(f"{q}: call of new helper {h.name} hoisted out of an expression")
+                    changed = True
         # 1. statement positions
         for parent in ast.walk(node):
             for field in ("body", "orelse", "finalbody"):
@@ -846,8 +930,8 @@ class ModuleNormalizer:
                             self.log.append(f"{q}: inlined single-use temporary {v}")
                             return True
                         continue
-                    if isinstance(e, (ast.Constant, ast.List, ast.Dict, ast.Set, ast.ListComp, ast.DictComp, ast.SetComp)):
-                        continue  # a literal is a new object, not a name for an existing one
+                    if isinstance(e, (ast.List, ast.Dict, ast.Set, ast.ListComp, ast.DictComp, ast.SetComp)) or (isinstance(e, ast.Constant) and not isinstance(e.value, (str, int, float, bool, type(None)))):
+                        continue  # a container literal is a new object, not a name for an existing one
                     if isinstance(e, ast.Name) and (len(stores.get(e.id, [])) > 1):
                         continue
                     # parts must be stable: base names bound at most once (parameters: never), attribute paths never stored
